@@ -123,6 +123,7 @@ impl FrameWalker for Walker {
 /// its own supplier call and get its own stats entry.
 /// key 3: ANOTHER BUILD of key 0 — same code file, code id and debug file, a different debug id (a DLL
 /// replaced on disk while the process runs). Also a distinct module.
+/// key 5: a module with no identifier at all (only a code file).
 /// key 4: a file of key 0's NAME in another directory, with the same debug file and no identifiers (two
 /// unrelated libraries that happen to share a file name). Also a distinct module.
 fn leaf_key(k: u8) -> u8 {
@@ -133,6 +134,10 @@ fn leaf_key(k: u8) -> u8 {
     }
 }
 fn module(k: u8) -> SimpleModule {
+    if k == 5 {
+        // a module without any identifier (no debug file, no debug id, no code id): still one module
+        return SimpleModule::from_basic_info(None, None, Some("C:\\dir\\mod5.dll".into()), None);
+    }
     if k == 4 {
         return SimpleModule::from_basic_info(Some("mod0.pdb".into()), Some(debugid::DebugId::nil()), Some("C:\\other\\mod0.dll".into()), None);
     }
@@ -451,6 +456,20 @@ fn configs(tier: Tier) -> Vec<Cfg> {
             for susp in 0..=(if t == 2 { 2 } else { 1 }) {
                 push(&ts, susp, vec![0, 0, 0, 0, 1], 1, 0);
                 push(&ts, susp, vec![2, 0, 0, 0, 0], 0, 0);
+            }
+        }
+    }
+    // --- a module without identifiers (key 5), alone and next to key 0
+    let bare_scripts: Vec<Vec<(u8, u8)>> = vec![vec![(0, 5)], vec![(0, 5), (0, 5)], vec![(1, 5)], vec![(0, 0), (0, 5)], vec![(1, 5), (0, 5), (0, 0)]];
+    for t in 1..=3 {
+        for ts in multisets(&bare_scripts, t) {
+            if ts.iter().map(|t| t.len()).sum::<usize>() > 5 {
+                continue;
+            }
+            for susp in 0..=(if t <= 2 { 2 } else { 1 }) {
+                push(&ts, susp, vec![0, 0, 0, 0, 0, 0], 1, 0);
+                push(&ts, susp, vec![0, 0, 0, 0, 0, 1], 0, 0);
+                push(&ts, susp, vec![1, 0, 0, 0, 0, 2], 0, 0);
             }
         }
     }
